@@ -17,14 +17,22 @@ import (
 
 // group collects the failed obligations that stem from one clause of one function.
 type group struct {
-	Key    string // func|kind|label
-	Func   string
-	Kind   string
-	Label  string
-	Source string
-	Jobs   []*Job
-	Unit   *Unit
-	Reason string // for binding / subset failures
+	Key          string // func|kind|label
+	Func         string
+	Kind         string
+	Label        string
+	Source       string
+	Jobs         []*Job
+	Unit         *Unit
+	Reason       string // for binding / subset failures
+	boundedRepro bool
+}
+
+func tailOf(s string, n int) string {
+	if len(s) > n {
+		return s[len(s)-n:]
+	}
+	return s
 }
 
 type replayFile struct {
@@ -200,6 +208,34 @@ func Check(cfg Config, prop string) int {
 			g.Jobs = append(g.Jobs, deadJobs[f]...)
 		}
 	}
+	// bounded stand-ins: drivers that exercise the real function up to a stated bound; never counted as proved
+	var boundedEv []any
+	seenDrv := map[string]bool{}
+	for _, u := range units {
+		if u.Contract == nil || u.Unbound {
+			continue
+		}
+		for _, b := range u.Contract.Bounded {
+			fs := strings.Fields(b)
+			if len(fs) == 0 || seenDrv[fs[0]] {
+				continue
+			}
+			seenDrv[fs[0]] = true
+			t1 := time.Now()
+			pkgDir := strings.TrimPrefix(u.Contract.Pkg, modulePrefix)
+			outcome, log := runDriver(cfg, pkgDir, fs[0], "")
+			rec := map[string]any{"driver": fs[0], "function": short(u.Key), "bound": strings.Join(fs[1:], " "), "s": round3(time.Since(t1).Seconds())}
+			if outcome == "reproduced" {
+				rec["outcome"] = "violation found within the bound"
+				g := addGroup(&group{Key: short(u.Key) + "|bounded|" + fs[0], Func: short(u.Key), Kind: "bounded", Label: fs[0], Unit: u,
+					Source: "bounded stand-in " + fs[0] + " (" + strings.Join(fs[1:], " ") + ") finds no violation", Reason: tailOf(log, 1500)})
+				g.boundedRepro = true
+			} else {
+				rec["outcome"] = "no violation within the bound"
+			}
+			boundedEv = append(boundedEv, rec)
+		}
+	}
 	// obligation count must be non-zero for a claimed property
 	if nObl == 0 && len(groups) == 0 {
 		addGroup(&group{Key: "govc|vacuity|obligations-exist", Func: "govc", Kind: "vacuity", Label: "obligations-exist",
@@ -267,14 +303,19 @@ func Check(cfg Config, prop string) int {
 			}
 			rf.Paths = append(rf.Paths, rp)
 		}
-		if g.Unit != nil && g.Unit.Contract != nil && g.Unit.Contract.Replay != "" && g.Kind != "binding" {
+		if g.boundedRepro {
+			rf.Outcome = "reproduced"
+			rf.Driver = g.Label
+			rf.Package = strings.TrimPrefix(g.Unit.Contract.Pkg, modulePrefix)
+			rf.DriverLog = g.Reason
+		} else if g.Unit != nil && g.Unit.Contract != nil && g.Unit.Contract.Replay != "" && g.Kind != "binding" {
 			rf.Driver = g.Unit.Contract.Replay
 			rf.Package = strings.TrimPrefix(g.Unit.Contract.Pkg, modulePrefix)
 		}
 		os.MkdirAll(replayDir, 0o755)
 		path := filepath.Join(replayDir, hashOf(g.Key)+".json")
 		writeJSON(path, rf)
-		if rf.Driver != "" {
+		if rf.Driver != "" && !g.boundedRepro {
 			outcome, log := runDriver(cfg, rf.Package, rf.Driver, path)
 			rf.Outcome, rf.DriverLog = outcome, log
 			writeJSON(path, rf)
@@ -447,4 +488,11 @@ func Replay(cfg Config, path string) int {
 func Selftest(cfg Config, prop string) int {
 	fmt.Println("selftest: use /verif/selftest/run.sh")
 	return 0
+}
+
+func boundedOrEmpty(b []any) []any {
+	if b == nil {
+		return []any{}
+	}
+	return b
 }
